@@ -83,11 +83,13 @@ class BackendCrash(Exception):
         self.tb = tb
 
 
-def run_backend(name, api, outdir, manifest=False):
-    """Run one configured backend on a stone Api into outdir; returns the Compiler."""
+def run_backend(name, api, outdir, manifest=False, precreate=True):
+    """Run one configured backend on a stone Api into outdir; returns the Compiler.
+    precreate=False (only for configurations without template files) leaves a missing outdir missing."""
     from stone.compiler import Compiler, BackendException
     modname, args, templates, _ = CONFIGS[name]
-    os.makedirs(outdir, exist_ok=True)
+    if precreate or templates:
+        os.makedirs(outdir, exist_ok=True)
     for fn, text in templates.items():
         with open(os.path.join(outdir, fn), 'w') as f:
             f.write(text)
